@@ -38,7 +38,21 @@ for sid in sorted(os.listdir(os.path.join(V, "seeded"))):
         rows.append((sid, p, res + (": " + detail[:140] if detail else ""), time.time() - t0))
         print(sid, p, res, detail[:100], flush=True)
     shutil.rmtree(rc, ignore_errors=True)
-with open(os.path.join(V, "seeded", "RESULTS.md"), "w") as f:
+# merge with the rows of earlier runs (a run restricted to some seeds must not forget the others)
+res_path = os.path.join(V, "seeded", "RESULTS.md")
+old_rows = {}
+if os.path.exists(res_path):
+    for line in open(res_path):
+        c = [x.strip() for x in line.strip().strip("|").split("|")]
+        if len(c) == 4 and c[0] not in ("seed", "---") and os.path.isdir(os.path.join(V, "seeded", c[0])):
+            try:
+                old_rows[(c[0], c[1])] = (c[0], c[1], c[2], float(c[3]))
+            except ValueError:
+                pass
+for r in rows:
+    old_rows[(r[0], r[1])] = r
+rows = [old_rows[k] for k in sorted(old_rows)]
+with open(res_path, "w") as f:
     f.write("# Seeded changes vs checks (tools/test_seeds.py; scratch copies, quick tier, seed 0)\n\n| seed | check | result | s |\n|---|---|---|---|\n")
     for sid, p, res, t in rows:
         f.write(f"| {sid} | {p} | {res} | {t:.0f} |\n")
